@@ -156,6 +156,11 @@ ElemLiteralResult::init(
                 needToProcess = false;
             }
         }
+        else if (equals(aname, DOMServices::s_XMLNamespace) == true)
+        {
+            // the default namespace declaration is a namespace decl, too
+            needToProcess = false;
+        }
 
         if (needToProcess == true)
         {
